@@ -938,6 +938,21 @@ impl MapRun {
         if s1 != dm || s2 != dm {
             fail!("C02", self, "Debug output {:?} / {:?} differs from the debug-map rendering of the iteration {:?}", s1, s2, dm);
         }
+        {
+            // every format specification reaches the entries, through each facade
+            struct D<'a>(&'a FMap, &'a seize::Guard<'a>);
+            impl std::fmt::Debug for D<'_> {
+                fn fmt(&self, f: &mut std::fmt::Formatter<'_>) -> std::fmt::Result {
+                    f.debug_map().entries(self.0.iter(self.1)).finish()
+                }
+            }
+            let want = debug_renderings(&D(m, &g));
+            for (facade, got) in [("HashMap", debug_renderings(m)), ("with_guard()", debug_renderings(&m.with_guard(&g))), ("pin()", debug_renderings(&m.pin()))] {
+                if let Some(i) = (0..want.len()).find(|i| got[*i] != want[*i]) {
+                    fail!("C02", self, "Debug of {} under format specification #{} prints {:?}, the debug-map rendering of its iteration under the same specification is {:?}", facade, i, got[i], want[i]);
+                }
+            }
+        }
         let entries = if s1 == "{}" { 0 } else { s1.matches(": ").count() };
         if entries != self.model.len() {
             fail!("C02", self, "Debug output shows {} entries, model holds {}", entries, self.model.len());
